@@ -31,6 +31,8 @@ struct RawRec {
     /// `Some(k)`: the writer emits a tracing event of its own on every k-th event it handles.
     log_every: Option<usize>,
     logged: u32,
+    /// The writer is in the middle of its I/O: the runner is not being polled, no quiescent point.
+    busy: Rc<std::cell::Cell<bool>>,
 }
 
 impl Writer<SimWorld> for RawRec {
@@ -38,6 +40,25 @@ impl Writer<SimWorld> for RawRec {
     async fn handle_event(&mut self, ev: parser::Result<Event<event::Cucumber<SimWorld>>>, _: &cli::Empty) {
         // a "helper task" logging on behalf of a step / hook that is awaiting (explicit parent span)
         world::emit_on_behalf();
+        // a writer doing its I/O first: the runner is not polled meanwhile (or is, if the pipeline's loop
+        // tries to be clever), and the event is taken note of only afterwards
+        let pm = self.core.knobs.consumer_pm;
+        if pm > 0 {
+            let stall = {
+                let mut r = self.core.rng.borrow_mut();
+                r.chance(u64::from(pm), 1000).then(|| if r.chance(1, 2) { 0 } else { r.log_dur(10_000_000) })
+            };
+            if let Some(d) = stall {
+                self.core.stats.borrow_mut().consumer_stalls += 1;
+                self.busy.set(true);
+                if d == 0 {
+                    self.core.yield_now().await;
+                } else {
+                    self.core.sleep(d, core::LABEL_WRITER).await;
+                }
+                self.busy.set(false);
+            }
+        }
         let e = self.rec.record(&ev);
         self.core.progress();
         self.events.borrow_mut().push(e);
@@ -71,7 +92,8 @@ pub fn run_world_t(plan: &Rc<Plan>) -> Result<History, String> {
     let plog = Rc::clone(&stream.log);
     let events = Rc::new(RefCell::new(Vec::new()));
     let polls = Rc::new(RefCell::new(Vec::new()));
-    let wr = RawRec { core: Rc::clone(&core), rec: Recorder::new(&core), events: Rc::clone(&events), polls: Rc::clone(&polls), log_every: (plan.seed % 3 == 0).then(|| 2 + (plan.seed / 3 % 5) as usize), logged: 0 };
+    let busy = Rc::new(std::cell::Cell::new(false));
+    let wr = RawRec { core: Rc::clone(&core), rec: Recorder::new(&core), events: Rc::clone(&events), polls: Rc::clone(&polls), log_every: (plan.seed % 3 == 0).then(|| 2 + (plan.seed / 3 % 5) as usize), logged: 0, busy: Rc::clone(&busy) };
     let opts = cli::Opts { re_filter: None, tags_filter: None, parser: cli::Empty, runner: runa::build_cli(plan), writer: cli::Empty, custom: cli::Empty };
     let warn = world::warn_filter_of(plan);
     let base = Cucumber::<SimWorld, _, (), _, _, cli::Empty>::custom(SimParser(stream), runa::build_runner(plan), wr);
@@ -106,8 +128,9 @@ pub fn run_world_t(plan: &Rc<Plan>) -> Result<History, String> {
         let plog = Rc::clone(&plog);
         let ctx2 = Rc::clone(&ctx);
         let core2 = Rc::clone(&core);
+        let busy = Rc::clone(&busy);
         core::run_root(&core, root, &mut |info| {
-            if info.quiescent {
+            if info.quiescent && !busy.get() {
                 let pl = plog.borrow();
                 quiescent.push(Quiescent {
                     events: events.borrow().len(),
